@@ -594,6 +594,7 @@ pub fn run(op: &str, a: &Args) -> Option<Outcome> {
         ["ctx", "script"] => Some(crate::ops_more::ctx_script(arg(a, "script"))),
         ["dom", "order_keys"] => Some(crate::ops_more::dom_order_keys(arg(a, "doc"))),
         ["dom", "tree_atomic"] => Some(crate::ops_more::dom_tree_atomic(arg(a, "scenario"))),
+        ["dom", "edit_roundtrip"] | ["dom", "edit_roundtrip1"] => Some(crate::ops_seq::dom_edit_roundtrip(arg(a, "edits"))),
         ["dom", "attr_seq"] | ["dom", "attr_seq1"] => Some(crate::ops_seq::dom_attr_seq(arg(a, "ops"))),
         ["dom", "seq_tree"] | ["dom", "seq1_tree"] => Some(crate::ops_seq::dom_seq(arg(a, "ops"), "tree")),
         ["dom", "seq_atomic"] | ["dom", "seq1_atomic"] => Some(crate::ops_seq::dom_seq(arg(a, "ops"), "atomic")),
@@ -786,6 +787,23 @@ pub fn grid(op: &str, limit: usize) -> (usize, Vec<(Args, Outcome)>) {
                 }
                 let q = crate::ops_more::unescape_line(q);
                 try_one(mk(&[("doc", d), ("query", q.as_str()), ("expected", e)]), &mut n, &mut bad);
+            }
+        }
+        ["dom", "edit_roundtrip1"] => {
+            for e in crate::ops_seq::edit_singles() {
+                try_one(mk(&[("edits", e.as_str())]), &mut n, &mut bad);
+            }
+        }
+        ["dom", "edit_roundtrip"] => {
+            let singles = crate::ops_seq::edit_singles();
+            for e in &singles {
+                try_one(mk(&[("edits", e.as_str())]), &mut n, &mut bad);
+            }
+            for first in &singles {
+                for e in &singles {
+                    let two = format!("{};{}", first, e);
+                    try_one(mk(&[("edits", two.as_str())]), &mut n, &mut bad);
+                }
             }
         }
         ["dom", "attr_seq1"] => {
